@@ -851,8 +851,13 @@ class Eval:
         a2 = list(args)
         a2[3] = th0 + 1e-12 * np.array([(-1.0) ** j for j in range(n)])
         ok2, p2 = self._call(self.mr, fname, a2)
-        stable = bool(ok2 and bool(p2[1]) == sp and np.all(np.isfinite(p2[0]))
-                      and (not sp or sig < 0.05 or np.abs(np.asarray(p2[0]) - thp).max() <= bound))
+        stable = bool(ok2 and bool(p2[1]) == sp and np.all(np.isfinite(p2[0])))
+        if stable:
+            d2 = float(np.abs(np.asarray(p2[0]) - thp).max())
+            if sp:          # converged: the perturbed run must land on the same solution (where the solution is isolated)
+                stable = sig < 0.05 or d2 <= bound
+            else:           # not converged: the last iterate must depend continuously on the start
+                stable = d2 <= 1e-6 * max(1.0, float(np.abs(thp).max()))
         if not stable:
             acc.skip("ik_chaotic")
             return
